@@ -61,7 +61,7 @@ theorem handleSuccess_eq (a : Agent) (now : Nat) (m : Msg) (l r : Cand) (src : N
     match (a.takePending now m.tid).2 with
     | none => ((a.takePending now m.tid).1, [])
     | some pd =>
-      if !(pd.net == l.net && pd.dest == src) then ((a.takePending now m.tid).1, [])
+      if !(pd.net == l.net && pd.dest == src && pd.src == l.addr) then ((a.takePending now m.tid).1, [])
       else
         match (a.takePending now m.tid).1.findPair l r with
         | none => ((a.takePending now m.tid).1, [])
